@@ -24,11 +24,15 @@ T0 = 4_000_000_000  # later than any real mtime, so a file the harness has not r
 
 NAMES_A = b"Path=./a.txt\nName=Alpha\nNumb=1\n"
 NAMES_B = b"Path=./a.txt\nName=Omega\nNumb=-1\n\nName=Extra\nType=1\nPath=/d/sub\nHost=+\nPort=+\n"
+# fields that are set, but to the empty string
+NAMES_C = b"Path=./b.txt\nName=\nNumb=2\n\nName=Empty Host\nType=1\nPath=/eh\nHost=\nPort=70\n"
+DAY = 86400
 
 
 def ops_for(L):
-    ops = [("list", p) for p in PROTOS] + [("create",), ("delete",), ("rename",), ("names",)]
-    ticks = sorted({t for t in (1, L - 1, L, L + 1) if t > 0})
+    ops = [("list", p) for p in PROTOS] + [("head",), ("create",), ("delete",), ("rename",), ("names",)]
+    # both sides of the lifetime, and the same a day later (an age whose seconds-of-day part is small again)
+    ticks = sorted({t for t in (1, L - 1, L, L + 1, DAY + 1) if t > 0})
     return ops + [("tick", t) for t in ticks]
 
 
@@ -137,14 +141,16 @@ class _Sys:
                 os.rename(t, s)
             return None
         if kind == "names":
-            self.names_state = (self.names_state + 1) % 3
+            self.names_state = (self.names_state + 1) % 4
             p = os.path.join(self.d, ".names")
             if self.names_state == 0:
                 if os.path.exists(p):
                     os.unlink(p)
             else:
-                rig.write_file(p, NAMES_A if self.names_state == 1 else NAMES_B, mtime=T0)
+                rig.write_file(p, {1: NAMES_A, 2: NAMES_B, 3: NAMES_C}[self.names_state], mtime=T0)
             return None
+        if kind == "head":
+            return self._head()
         # list
         proto = op[1]
         now = CLOCK.now
@@ -185,6 +191,31 @@ class _Sys:
             self.readers = self.readers + (proto,)
         return bad
 
+    def _head(self):
+        """HTTP HEAD of the directory: no listing is produced.  Whatever the server does to the cache file
+        must be consistent with the model: untouched, or (on a miss only) a complete rewrite."""
+        now = CLOCK.now
+        must_miss = self.L == 0 or self.model is None or now - self.model[0] >= self.L
+        before = self._cache_sig()
+        rig.reset_lazies()
+        CLOCK.reads = 0
+        r = self.w.serve(b"HEAD /d HTTP/1.0\r\n\r\n", False)
+        CLOCK.settle()
+        after = self._cache_sig()
+        if r.internal_error:
+            return ("error", r.describe_error())
+        if not r.out.startswith(b"HTTP/1.0 200"):
+            return ("wrong-listing", "HEAD /d answered %r" % r.out[:80])
+        if after != before:
+            if after is not None:
+                os.utime(self.cpath, (now, now))
+            if not must_miss:
+                return ("refreshed-on-hit", "a HEAD request at t=%d modified the cache file (age was %d)" % (now - T0, now - self.model[0]))
+            # the entry is as young as a rewrite at `now`: it must hold the directory as it is now
+            self.model = (now, {q: self._twin_listing(q) for q in PROTOS}) if self.L > 0 else None
+            self.readers = ("head",)
+        return None
+
     def canon(self):
         """Canonical, path-independent digest of the property-relevant state."""
         tree = rig.tree_digest(self.d, skip=(CACHE.encode(), b".cache.twin"))
@@ -195,8 +226,10 @@ class _Sys:
                 with open(self.cpath, "rb") as f:
                     entries = pickle.load(f)
                 cache = core.h64(repr([sorted((k, repr(v)) for k, v in vars(e).items() if k not in ("config", "ctime", "mtime")) for e in entries]))
-            except Exception as e:  # noqa
-                cache = "unreadable:%s" % type(e).__name__
+            except Exception:  # noqa
+                # not the format this harness knows how to look into: the raw bytes (finer than needed, never coarser)
+                with open(self.cpath, "rb") as f:
+                    cache = core.h64(f.read())
             age = min(CLOCK.now - int(os.stat(self.cpath).st_mtime), self.L)
         mdl = None
         if self.model is not None:
